@@ -20,7 +20,6 @@ import (
 	"testing"
 	"time"
 
-	"github.com/go-redis/redis/v8"
 	"google.golang.org/protobuf/proto"
 	"google.golang.org/protobuf/types/known/anypb"
 
@@ -45,6 +44,10 @@ type c10Redis struct {
 	cmds     []string
 	failMode string // "": accept; "err": answer PUBLISH with an error; "close": drop the connection on PUBLISH
 	attempts int
+	// fate of the next PUBLISH attempts, one entry per attempt (world lane): "before" = the connection is lost
+	// before the command is processed, "after" = processed, connection lost before the reply, "refuse" = error reply
+	script []string
+	pings  int
 }
 
 func c10StartRedis() (*c10Redis, error) {
@@ -115,6 +118,9 @@ func (s *c10Redis) serve(c net.Conn) {
 		s.mu.Unlock()
 		switch name {
 		case "PING":
+			s.mu.Lock()
+			s.pings++
+			s.mu.Unlock()
 			_, _ = c.Write([]byte("+PONG\r\n"))
 		case "PUBLISH":
 			if len(cmd) != 3 {
@@ -124,15 +130,21 @@ func (s *c10Redis) serve(c net.Conn) {
 			s.mu.Lock()
 			mode := s.failMode
 			s.attempts++
-			if mode == "" {
+			if mode == "" && len(s.script) > 0 {
+				mode = "script:" + s.script[0]
+				s.script = s.script[1:]
+			}
+			if mode == "" || mode == "script:after" {
 				s.pubs = append(s.pubs, c10Pub{Channel: string(cmd[1]), Payload: append([]byte{}, cmd[2]...)})
 			}
 			s.mu.Unlock()
 			switch mode {
 			case "err":
 				_, _ = c.Write([]byte("-ERR scripted failure\r\n"))
-			case "close":
+			case "close", "script:before", "script:after":
 				return
+			case "script:refuse":
+				_, _ = c.Write([]byte("-ERR scripted refusal\r\n"))
 			default:
 				_, _ = c.Write([]byte(":1\r\n"))
 			}
@@ -182,6 +194,10 @@ type c10Case struct {
 	ODst      *uint32 `json:"odst"`
 	Source    int32   `json:"source"`
 	Subnets   string  `json:"subnets"` // TOML for PHANTOM_SUBNET_LOCATION
+
+	// world
+	Msgs []c10wMsg `json:"msgs"`
+	Ops  []c10wOp  `json:"ops"`
 }
 
 type c10Msg struct {
@@ -217,6 +233,7 @@ type c10Res struct {
 	Meta     interface{} `json:"meta"`
 	PubFail  interface{} `json:"pubfail"`
 	Info     interface{} `json:"info"`
+	World    *c10wRes    `json:"world"`
 }
 
 func c10Hexp(b []byte) *string {
@@ -595,6 +612,8 @@ func c10Run(t *testing.T, srv *c10Redis, c c10Case) (res c10Res) {
 			rm.AddRegistration(r)
 			rm.MarkActive(r)
 		}
+	case "world":
+		res.World, res.Err = c10World(t, srv, c)
 	case "meta":
 		rd := NewRegisteredDecoys()
 		protos := map[string]int32{}
@@ -609,6 +628,8 @@ func c10Run(t *testing.T, srv *c10Redis, c c10Case) (res c10Res) {
 			"ipproto":           pb.IPProto_value,
 			"station_ops":       pb.StationOperations_value,
 			"transport_types":   pb.TransportType_value,
+			// the retry budget of the client the station's own constructor built (go-redis normalises -1 -> 0, 0 -> 3)
+			"max_retries": getRedisClient().Options().MaxRetries,
 		}
 	}
 	return
@@ -628,10 +649,24 @@ func TestVerifC10Detector(t *testing.T) {
 		t.Fatal(err)
 	}
 	defer srv.ln.Close()
-	// point the package's client at the stand-in; getRedisClient() must not re-initialise it
-	once.Do(func() {})
-	client = redis.NewClient(&redis.Options{Addr: srv.ln.Addr().String(), PoolSize: 4,
-		DialTimeout: 5 * time.Second, ReadTimeout: 5 * time.Second, WriteTimeout: 5 * time.Second})
+	// The client is the one the station's own constructor builds (getRedisClient -> initRedisClient: its
+	// options, in particular the retry budget, are the code's).  The constructor dials a fixed address; the
+	// connection pool reads Options().Addr on every dial, so new connections are sent to the stand-in.
+	rc := getRedisClient()
+	if rc == nil {
+		t.Fatal("getRedisClient() returned nil")
+	}
+	rc.Options().Addr = srv.ln.Addr().String()
+	for i := 0; i < 3; i++ {
+		rc.Ping(context.Background())
+	}
+	srv.mu.Lock()
+	redirected := srv.pings > 0
+	srv.mu.Unlock()
+	if !redirected {
+		// something answers on the constructor's fixed address and the pool holds a connection to it
+		t.Fatal("the station's redis client could not be pointed at the stand-in")
+	}
 
 	res := make([]c10Res, len(cases))
 	for i, c := range cases {
